@@ -2,6 +2,10 @@
 """regenerates MANIFEST.json from the table below (kept valid at all times)"""
 import json
 CLAIMED = {
+ "C09": ("collector: trace / trace_non_roots / run_finalizer of every Trace impl agree on fields and guards; collect() phase order; sweep/dump under DropGuard; Drop of Trace types finalizes only under finalizer_safe()",
+         "sibling agreement over the three tracing bodies of every impl + ordering/dominance rules over the collector's MIR", "§5 C09"),
+ "C12": ("value tagging: compile-time enumeration of all 65 536 x 3 bit patterns against the current `mod bits` (exactly-one-kind, round trips, NaN canonicalisation); single door for constructing NanBoxedValue; (thorough) jsvalue-enum API parity",
+         "compile-time witness (rustc const evaluation of the extracted source) + who-may-construct/provenance rule over MIR", "§5 C12"),
  "C15": ("typed arrays: float-to-int element conversions range-limited before the cast (no saturation before the modular step); unsafe element access on subslice()d, validated slices; raw copies only from audited callers with reference-derived pointers",
          "value-shape classification of every Cast(FloatToInt) by reaching definitions and dominating comparisons + provenance rules on unsafe call sites", "§5 C15"),
  "C16": ("jobs: only FIFO-preserving operations on job queues, job types consumed by value and not Clone, budget/non-budget opcode handlers identical up to the budget subtraction, kept objects cleared per batch",
